@@ -155,7 +155,7 @@ func (g *G) mutatePattern(p string, useIc bool) string {
 	return g.pattern(useIc)
 }
 
-var malformed = []string{"/{a{b}x", "/{a{}}y", "{abc{d}/x", "{abc{ee}/y", "", "{}", "/{}", "/{:\\d+}", "/{a}{b}", "/{id}/{id}", "/{id}/{-id}", "/{id:[0-9}", "/{id:(}", "/{id:*}", "/}{", "/{", "/}", "/{a", "/a}", "/{a:}", "/{a}:", "/{-}", "/{-:x}", "/{id-x:\\d+}", "/{a}}/{b}", "/{{a}", "/:{a}", "{a}{b}{c}", "/{a:\\d+}{b}"}
+var malformed = []string{"/{a{b}x", "/{a{}}y", "{abc{d}/x", "{abc{ee}/y", "", "{}", "/{}", "/{:\\d+}", "/{a}{b}", "/{id}/{id}", "/{id}/{-id}", "/{id:[0-9}", "/{id:(}", "/{id:*}", "/}{", "/{", "/}", "/{a", "/a}", "/{a:}", "/{a}:", "/{-}", "/{-:x}", "/{id-x:\\d+}", "/{a}}/{b}", "/{{a}", "/:{a}", "{a}{b}{c}", "/{a:\\d+}{b}", "/{a}/{b}/{c}/{d}/{a}", "/{a}/{b}/{c}/{d}/{e}/{b}", "/{a}/{b}/{c}/{d}/{-d}", "/{a}/{b}/{c}/{d}/{e}/{f}/{g}/{h}/{i}/{a}"}
 
 // ---- paths ---------------------------------------------------------------------------------
 
@@ -1406,7 +1406,7 @@ func streamCors(g *G) { // C11, C12
 					g.emit(f, rid)
 				}
 				g.emit("routes %d", rid)
-				for _, path := range []string{"/a", "/u/5", "/b"} {
+				for _, path := range []string{"/a", "/u/5", "/b", "", "*"} {
 					for _, acrm := range []string{"GET", "POST", "PUT", "DELETE", "PATCH"} {
 						if g.chance(0.45) {
 							continue
@@ -1663,6 +1663,32 @@ func streamHosts(g *G) { // C14
 			probe()
 			g.emit("hosts-del %d %s", hid, encB("{SUB:[a-z]+}.EXAMPLE.com"))
 			probe()
+			hid++
+		}
+		if g.chance(0.25) {
+			// two parameter domains share part of their literal text (the tree splits the parameter node); a host repeats the
+			// shared fragment; Delete of one domain leaves the other one matching as before (the tree may not re-merge)
+			tl := [][2]string{{"com", "org"}, {"co.uk", "com"}, {"example.net", "example.nu"}}[g.intn(3)]
+			da, db := "{sub}.example."+tl[0], "{sub}.example."+tl[1]
+			g.emit("hosts %d %s", hid, encL([]string{da, db}))
+			probe := func() {
+				for _, h := range []string{"a.example.x.example." + tl[0], "a.example." + tl[0], "a.example.example." + tl[0], "b.example.c.example." + tl[1], "a.example." + tl[1]} {
+					g.emit("hosts-match %d %s", hid, encB(h))
+				}
+			}
+			probe()
+			g.emit("hosts-del %d %s", hid, encB(strings.ToUpper(db)))
+			probe()
+			g.emit("hosts-add %d %s", hid, encB(db))
+			probe()
+			hid++
+		}
+		if g.chance(0.2) {
+			// a port is ASCII digits: other Unicode digits after the colon are part of the host name
+			g.emit("hosts %d %s", hid, encL([]string{"caixw.io", "{sub}.example.com", "::1"}))
+			for _, h := range []string{"caixw.io:80", "caixw.io:８０", "caixw.io:8٠", "xx.example.com:२०", "[::1]:๑", "[::1]:8080", "caixw.io:", "caixw.io:８"} {
+				g.emit("hosts-match %d %s", hid, encB(h))
+			}
 			hid++
 		}
 		if g.chance(0.2) {
@@ -2013,6 +2039,9 @@ func streamTrace(g *G) { // C18
 					body = meta
 				}
 			}
+			if g.chance(0.15) { // binary bodies: NUL and other control bytes are echoed as they are
+				body = g.pick([]string{"bin\x00ary", "\x00", "a\x00b\x01c\x7f"})
+			}
 			req := mkRequest(encB("TRACE"), encB(path), encB("example.com"), encKVs(hdrs))
 			req.Body = io.NopCloser(strings.NewReader(body))
 			dump := "%!"
@@ -2290,7 +2319,7 @@ func streamFacade(g *G) { // C19: the same program through façades (router A) a
 
 func streamParams(g *G) { // C20
 	vals := []string{"", "0", "1", "-1", "+1", "007", "9223372036854775807", "9223372036854775808", "-9223372036854775808", "-9223372036854775809", "18446744073709551615", "18446744073709551616", "1_000", " 1", "1 ", "0x10", "1e3", "1.5", "-0", "NaN", "Inf", "-inf", "true", "T", "TRUE", "True", "tRUE", "f", "false", "F", "abc", "\xff", "é", "1e400", ".5", "5.", "0.1e-2", "infinity", "+", "-"}
-	keys := []string{"id", "a", "", "é", "k1", "k2", "\x00", "id "}
+	keys := []string{"id", "a", "", "é", "k1", "k2", "\x00", "id ", strings.Repeat("n", 63), strings.Repeat("n", 64), strings.Repeat("m", 65), strings.Repeat("k", 128)}
 	for _, v := range vals {
 		f, err := strconv.ParseFloat(v, 64)
 		res := "syntax"
